@@ -26,7 +26,7 @@ structure Mesh (V : Type) where
   nodalVars : List Var
   nodalRows : List (List V)                -- one row per node (storage order), all variables concatenated
   elemVars : List Var
-  elemRows : List (Nat × List V)           -- one row per element in `elements.ids` order: id, values
+  elemRows : List (List V)                 -- one row per element, positionally in `elements.ids` order
 deriving Repr, DecidableEq
 
 variable {V : Type}
@@ -51,6 +51,18 @@ def sumW (vars : List Var) : Nat := (vars.map Var.width).sum
 def elemLines (m : Mesh V) : List (Line V) := m.blocks.flatMap fun (ty, es) => es.map (elemLine ty)
 def nElem (m : Mesh V) : Nat := (m.blocks.map fun b => b.2.length).sum
 
+def insertIdAsc (i : Nat) : List Nat → List Nat
+  | [] => [i]
+  | a :: t => if i ≤ a then i :: a :: t else a :: insertIdAsc i t
+def sortIds (l : List Nat) : List Nat := l.foldr insertIdAsc []
+
+/-- `fem_data.elements.ids` (`FEMElementalAttribute._update_self`): one type block keeps its storage order,
+    several blocks are merged ascending by id -/
+def elemIds (blocks : List (Nat × List Elem)) : List Nat :=
+  match blocks with
+  | [b] => b.2.map Elem.id
+  | bs => sortIds (bs.flatMap fun b => b.2.map Elem.id)
+
 def dataBlock (vars : List Var) (rows : List (Nat × List V)) : List (Line V) :=
   if sumW vars = 0 then [] else blockHeader vars :: (vars.map nameLine ++ rows.map dataLine)
 
@@ -59,7 +71,7 @@ def write (m : Mesh V) : List (Line V) :=
   ++ m.nodes.map nodeLine
   ++ elemLines m
   ++ dataBlock m.nodalVars ((m.nodes.map Prod.fst).zip m.nodalRows)
-  ++ dataBlock m.elemVars m.elemRows
+  ++ dataBlock m.elemVars ((elemIds m.blocks).zip m.elemRows)
 
 /-! ### reader -/
 def asNat : Tok V → Option Nat | .n k => some k | _ => none
